@@ -15,12 +15,20 @@ func init() {
 			ID: "C35", Title: "The shortest-path-tree computation is correct on every graph", Level: "other",
 			Technique:   "maybe-nil local analysis on go/cfg: a nil-initialised pointer local must be definitely assigned or nil-checked before every dereference",
 			DesignRef:   "DESIGN.md §4 C35",
-			Decided:     "the panic clause only: in package util/dijkstra no pointer local that starts as nil and is assigned only on some paths (the `next` candidate of the greedy selection) is dereferenced on a path that carries neither an assignment of a non-nil value nor a dominating nil test; additionally every map-typed field of Topology that SPT indexes for writing is made in NewTopology.",
-			NotDecided:  "distances and tree edges (minimality, existing edges, unreachable marking) are graph-numerical results — not applicable to static analysis; only freedom from the nil dereference is decided.",
+			Decided:     "necessary conditions of Dijkstra's algorithm that are visible as guards: (a) the greedy selection assigns the next node only from a candidate whose tentative distance is not the 'unreached' sentinel, and only when there is no choice yet or the candidate is strictly/weakly closer than the current choice (which is recorded together with it); (b) relaxation stores from.Distance + edge weight, and overwrites a reached node's distance only when that sum is smaller; (c) NewTopology stores every input edge — a guard on the weight may only exclude negative weights; and the panic clause: in package util/dijkstra no pointer local that starts as nil and is assigned only on some paths (the `next` candidate of the greedy selection) is dereferenced on a path that carries neither an assignment of a non-nil value nor a dominating nil test; additionally every map-typed field of Topology that SPT indexes for writing is made in NewTopology.",
+			NotDecided:  "that these guards add up to minimal distances on every graph is the algorithm's correctness proof, a numerical argument static analysis does not make; the rules are necessary conditions (breaking one breaks some graph), not sufficient ones.",
 			TrustedBase: stdTrusted,
 		},
 		Run: runC35,
 		Controls: []Control{
+			{Name: "selection-takes-unreached-candidate", File: "util/dijkstra/dijkstra.go", Old: "\t\t\tif spt[candidate].Distance == -1 {\n\t\t\t\tcontinue\n\t\t\t}\n", New: "", Expect: "dijkstra-selection"},
+			{Name: "selection-prefers-farther", File: "util/dijkstra/dijkstra.go", Old: "\t\t\tif spt[candidate].Distance < nextDistance {", New: "\t\t\tif spt[candidate].Distance > nextDistance {", Expect: "dijkstra-selection"},
+			{Name: "zero-weight-edges-dropped", File: "util/dijkstra/dijkstra.go", Old: "\tfor _, e := range edges {\n", New: "\tfor _, e := range edges {\n\t\tif e.Distance <= 0 {\n\t\t\tcontinue\n\t\t}\n", Expect: "dijkstra-edges-stored"},
+			{Name: "relaxation-keeps-larger", File: "util/dijkstra/dijkstra.go", Old: "\t\t\tif spt[from].Distance+distance < spt[neighbor].Distance {", New: "\t\t\tif spt[from].Distance+distance > spt[neighbor].Distance {", Expect: "dijkstra-relaxation"},
+			{Name: "refactor-selection-single-guard", Silent: true, File: "util/dijkstra/dijkstra.go",
+				Old: "\t\t\tif next == nil {\n\t\t\t\ttmp := candidate\n\t\t\t\tnext = &tmp\n\t\t\t\tnextDistance = spt[candidate].Distance\n\t\t\t\tcontinue\n\t\t\t}\n\n\t\t\tif spt[candidate].Distance < nextDistance {",
+				New: "\t\t\tif next == nil || spt[candidate].Distance < nextDistance {"},
+			{Name: "refactor-reject-negative-weights", Silent: true, File: "util/dijkstra/dijkstra.go", Old: "\tfor _, e := range edges {\n", New: "\tfor _, e := range edges {\n\t\tif e.Distance < 0 {\n\t\t\tcontinue\n\t\t}\n"},
 			{Name: "drop-nil-check-on-next", File: "util/dijkstra/dijkstra.go", Old: "\t\tif next == nil {\n\t\t\tbreak\n\t\t}\n", New: "", Expect: "maybe-nil-deref"},
 		},
 	})
@@ -42,6 +50,7 @@ func runC35(c *core.Ctx) {
 		c.Analysed(f)
 		n += maybeNilLocals(c, f, "maybe-nil-deref")
 	}
+	dijkstraShape(c)
 	c.Check(n >= 1, "maybe-nil-deref", "util/dijkstra has a nil-initialised pointer local (the greedy candidate)", token.NoPos, "the rule found no nil-initialised pointer local in util/dijkstra: the selection loop it was confirmed on is gone")
 }
 
@@ -145,4 +154,255 @@ func maybeNilLocals(c *core.Ctx, f *core.Fn, rule string) int {
 		})
 	}
 	return count
+}
+
+// dijkstraShape checks the guard structure of the greedy selection, the relaxation and the edge table.
+func dijkstraShape(c *core.Ctx) {
+	p := c.P
+	const pkg = "util/dijkstra"
+	distF := p.Field(pkg, "Path", "Distance")
+	edgeDist := p.Field(pkg, "Edge", "Distance")
+	isSentinel := func(f *core.Fn, e ast.Expr) bool {
+		v := core.ConstOf(f.Pkg, e)
+		return v != nil && v.ExactString() == "-1"
+	}
+	// is e the tentative distance of the variable obj: spt[obj].Distance, or a local defined as that
+	var distOf func(f *core.Fn, e ast.Expr, obj types.Object, depth int) bool
+	distOf = func(f *core.Fn, e ast.Expr, obj types.Object, depth int) bool {
+		e = core.Unparen(e)
+		if se, ok := e.(*ast.SelectorExpr); ok && core.FieldOf(f.Pkg, se) == distF && distF != nil {
+			if ix, isIx := core.Unparen(se.X).(*ast.IndexExpr); isIx {
+				return core.ObjOf(f.Pkg, ix.Index) == obj
+			}
+		}
+		if o := core.ObjOf(f.Pkg, e); o != nil && depth < 2 {
+			ds := core.DefsOf(f, o)
+			if len(ds) == 1 {
+				return distOf(f, ds[0], obj, depth+1)
+			}
+		}
+		return false
+	}
+	if f := c.MustFunc(pkg + ".(*Topology).SPT"); f != nil {
+		// locate the selection loop: a range loop whose body assigns a pointer local (the choice)
+		var next, nextDist types.Object
+		ast.Inspect(f.Decl.Body, func(n ast.Node) bool {
+			if ds, ok := n.(*ast.DeclStmt); ok {
+				if gd, isG := ds.Decl.(*ast.GenDecl); isG && gd.Tok == token.VAR {
+					for _, sp := range gd.Specs {
+						vs := sp.(*ast.ValueSpec)
+						for _, nm := range vs.Names {
+							if o := f.Pkg.TypesInfo.Defs[nm]; o != nil {
+								if _, isPtr := o.Type().Underlying().(*types.Pointer); isPtr {
+									next = o
+								}
+							}
+						}
+					}
+				}
+			}
+			return true
+		})
+		if next == nil {
+			c.Undecided("dijkstra-selection", f.Name()+" choice variable", f.Decl.Pos(), "no pointer local holding the selected node found")
+			return
+		}
+		nSel := 0
+		ast.Inspect(f.Decl.Body, func(n ast.Node) bool {
+			rs, ok := n.(*ast.RangeStmt)
+			if !ok {
+				return true
+			}
+			cand := core.ObjOf(f.Pkg, rs.Key)
+			if cand == nil {
+				return true
+			}
+			ast.Inspect(rs.Body, func(m ast.Node) bool {
+				as, isAs := m.(*ast.AssignStmt)
+				if !isAs || len(as.Lhs) != 1 || core.ObjOf(f.Pkg, as.Lhs[0]) != next || as.Tok != token.ASSIGN {
+					return true
+				}
+				nSel++
+				construct := fmt.Sprintf("%s selection assignment #%d", f.Name(), nSel)
+				reached, better, first := false, false, false
+				var classify func(e ast.Expr, truth bool) (isFirst, isBetter bool)
+				classify = func(e ast.Expr, truth bool) (bool, bool) {
+					e = core.Unparen(e)
+					if x, isNil := core.IsNilCheck(f.Pkg, e); isNil && truth && core.ObjOf(f.Pkg, x) == next {
+						return true, false
+					}
+					be, isB := e.(*ast.BinaryExpr)
+					if !isB {
+						return false, false
+					}
+					if be.Op == token.LOR && truth {
+						// a disjunction licenses the assignment only if every alternative does
+						f1, b1 := classify(be.X, true)
+						f2, b2 := classify(be.Y, true)
+						if (f1 || b1) && (f2 || b2) {
+							return f1 || f2, b1 || b2
+						}
+						return false, false
+					}
+					lt := (be.Op == token.LSS || be.Op == token.LEQ) && truth || (be.Op == token.GTR || be.Op == token.GEQ) && !truth
+					gt := (be.Op == token.GTR || be.Op == token.GEQ) && truth || (be.Op == token.LSS || be.Op == token.LEQ) && !truth
+					if lt && distOf(f, be.X, cand, 0) && !distOf(f, be.Y, cand, 0) {
+						nextDist = core.ObjOf(f.Pkg, be.Y)
+						return false, true
+					}
+					if gt && distOf(f, be.Y, cand, 0) && !distOf(f, be.X, cand, 0) {
+						nextDist = core.ObjOf(f.Pkg, be.X)
+						return false, true
+					}
+					return false, false
+				}
+				for _, ft := range core.FactsAt(f, as) {
+					if ft.Expr == nil {
+						continue
+					}
+					if be, isB := core.Unparen(ft.Expr).(*ast.BinaryExpr); isB {
+						// candidate distance is not the sentinel
+						if (be.Op == token.EQL && !ft.Truth || be.Op == token.NEQ && ft.Truth) && ((distOf(f, be.X, cand, 0) && isSentinel(f, be.Y)) || (distOf(f, be.Y, cand, 0) && isSentinel(f, be.X))) {
+							reached = true
+						}
+					}
+					fi, bt := classify(ft.Expr, ft.Truth)
+					first, better = first || fi, better || bt
+				}
+				c.Check(reached, "dijkstra-selection", construct+" only takes a reached candidate", as.Pos(),
+					"the greedy selection can choose a node whose tentative distance is still the 'unreached' sentinel −1: the algorithm then expands an unreachable node from base distance −1, marks unreachable nodes reachable and can lower the source's own distance")
+				c.Check(first || better, "dijkstra-selection", construct+" takes the first or a closer candidate", as.Pos(),
+					"the selected node is replaced by a candidate that is not known to be closer than the current choice: the closest unmarked node is not the one expanded next, so distances computed from it are not minimal")
+				return true
+			})
+			return true
+		})
+		c.Check(nSel >= 1, "dijkstra-selection", f.Name()+" greedy selection found", f.Decl.Pos(), "no assignment of the selected node inside a loop over the unmarked nodes found")
+		// the recorded distance of the choice is updated together with the choice
+		if nextDist != nil {
+			okAll := true
+			ast.Inspect(f.Decl.Body, func(n ast.Node) bool {
+				bl, ok := n.(*ast.BlockStmt)
+				if !ok {
+					return true
+				}
+				hasNext, hasDist := false, false
+				for _, st := range bl.List {
+					if as, isAs := st.(*ast.AssignStmt); isAs && len(as.Lhs) == 1 && as.Tok == token.ASSIGN {
+						if core.ObjOf(f.Pkg, as.Lhs[0]) == next {
+							hasNext = true
+						}
+						if core.ObjOf(f.Pkg, as.Lhs[0]) == nextDist {
+							hasDist = true
+						}
+					}
+				}
+				if hasNext && !hasDist {
+					okAll = false
+				}
+				return true
+			})
+			c.Check(okAll, "dijkstra-selection", f.Name()+" records the distance of the choice with the choice", f.Decl.Pos(), "a selection assignment does not update the recorded distance of the current choice: later candidates are compared with a stale distance")
+		}
+		// relaxation
+		nRel := 0
+		ast.Inspect(f.Decl.Body, func(n ast.Node) bool {
+			rs, ok := n.(*ast.RangeStmt)
+			if !ok || rs.Value == nil {
+				return true
+			}
+			nb, w := core.ObjOf(f.Pkg, rs.Key), core.ObjOf(f.Pkg, rs.Value)
+			if nb == nil || w == nil {
+				return true
+			}
+			isSum := func(e ast.Expr) bool {
+				be, isB := core.Unparen(e).(*ast.BinaryExpr)
+				if !isB || be.Op != token.ADD {
+					return false
+				}
+				fromD := func(x ast.Expr) bool {
+					se, isS := core.Unparen(x).(*ast.SelectorExpr)
+					return isS && core.FieldOf(f.Pkg, se) == distF && !distOf(f, x, nb, 0)
+				}
+				return (fromD(be.X) && core.ObjOf(f.Pkg, be.Y) == w) || (fromD(be.Y) && core.ObjOf(f.Pkg, be.X) == w)
+			}
+			ast.Inspect(rs.Body, func(m ast.Node) bool {
+				as, isAs := m.(*ast.AssignStmt)
+				if !isAs || len(as.Lhs) != 1 || core.FieldOf(f.Pkg, as.Lhs[0]) != distF || distF == nil {
+					return true
+				}
+				nRel++
+				construct := fmt.Sprintf("%s relaxation store #%d", f.Name(), nRel)
+				c.Check(isSum(as.Rhs[0]), "dijkstra-relaxation", construct+" stores from.Distance + weight", as.Pos(), "the tentative distance written for a neighbour is not the distance of the expanded node plus the edge weight")
+				fresh, smaller := false, false
+				for _, ft := range core.FactsAt(f, as) {
+					be, isB := core.Unparen(ft.Expr).(*ast.BinaryExpr)
+					if !isB {
+						continue
+					}
+					if be.Op == token.EQL && ft.Truth && ((distOf(f, be.X, nb, 0) && isSentinel(f, be.Y)) || (distOf(f, be.Y, nb, 0) && isSentinel(f, be.X))) {
+						fresh = true
+					}
+					lt := (be.Op == token.LSS || be.Op == token.LEQ) && ft.Truth || (be.Op == token.GTR || be.Op == token.GEQ) && !ft.Truth
+					gt := (be.Op == token.GTR || be.Op == token.GEQ) && ft.Truth || (be.Op == token.LSS || be.Op == token.LEQ) && !ft.Truth
+					if (lt && isSum(be.X) && distOf(f, be.Y, nb, 0)) || (gt && isSum(be.Y) && distOf(f, be.X, nb, 0)) {
+						smaller = true
+					}
+				}
+				c.Check(fresh || smaller, "dijkstra-relaxation", construct+" only for an unreached neighbour or a smaller sum", as.Pos(), "a reached neighbour's distance is overwritten without the new sum being smaller: distances are not minimal")
+				return true
+			})
+			return true
+		})
+		c.Check(nRel >= 1, "dijkstra-relaxation", f.Name()+" relaxation found", f.Decl.Pos(), "no store of a tentative distance inside a loop over the outgoing edges found")
+	}
+	if f := c.MustFunc(pkg + ".NewTopology"); f != nil {
+		edgesF := p.Field(pkg, "Topology", "edges")
+		n := 0
+		ast.Inspect(f.Decl.Body, func(nd ast.Node) bool {
+			as, ok := nd.(*ast.AssignStmt)
+			if !ok || len(as.Lhs) != 1 || len(as.Rhs) != 1 || core.FieldOf(f.Pkg, as.Rhs[0]) != edgeDist || edgeDist == nil {
+				return true
+			}
+			if !core.MentionsField(f.Pkg, as.Lhs[0], edgesF) {
+				return true
+			}
+			n++
+			bad := ""
+			for _, ft := range core.CtlFactsAt(f, as) {
+				if ft.Expr == nil || !core.MentionsField(f.Pkg, ft.Expr, edgeDist) {
+					continue
+				}
+				be, isB := core.Unparen(ft.Expr).(*ast.BinaryExpr)
+				okGuard := false
+				if isB && core.FieldOf(f.Pkg, be.X) == edgeDist {
+					if v := core.ConstOf(f.Pkg, be.Y); v != nil {
+						if cv, exact := constantInt(v); exact {
+							switch {
+							case be.Op == token.LSS && !ft.Truth, be.Op == token.GEQ && ft.Truth:
+								okGuard = cv <= 0
+							case be.Op == token.LEQ && !ft.Truth, be.Op == token.GTR && ft.Truth:
+								okGuard = cv < 0
+							case be.Op == token.EQL && !ft.Truth, be.Op == token.NEQ && ft.Truth:
+								okGuard = cv < 0
+							}
+						}
+					}
+				}
+				if !okGuard {
+					bad = core.ExprString(ft.Expr)
+				}
+			}
+			c.Check(bad == "", "dijkstra-edges-stored", f.Name()+" stores every edge with a non-negative weight", as.Pos(),
+				"the edge table entry is written only under a condition on the weight ("+bad+") that excludes some non-negative weights: those edges are silently missing from every shortest-path computation")
+			return true
+		})
+		c.Check(n >= 1, "dijkstra-edges-stored", f.Name()+" edge table store found", f.Decl.Pos(), "no store of Edge.Distance into Topology.edges found")
+	}
+}
+
+func constantInt(v interface{ ExactString() string }) (int64, bool) {
+	var x int64
+	_, err := fmt.Sscanf(v.ExactString(), "%d", &x)
+	return x, err == nil
 }
